@@ -898,7 +898,7 @@ class Association(threading.Thread):
                     "'Status' element"
                 )
                 rsp.Status = 0xC001
-        elif isinstance(status, int):
+        elif isinstance(status, int) and 0 <= status <= 0xFFFF:
             rsp.Status = status
         else:
             LOGGER.error("Invalid status returned by the EVT_C_STORE handler")
